@@ -250,10 +250,13 @@ def run_harness(pid, seed, n, outdir, mode="corr", extra=None, timeout=3000, sha
 def read_jsonl(p):
     out = []
     if os.path.exists(p):
-        for l in open(p):
+        for l in open(p, errors="replace"):
             l = l.strip()
             if l:
-                out.append(json.loads(l))
+                try:
+                    out.append(json.loads(l))
+                except ValueError:
+                    pass  # a line cut off when the harness was killed (reported as harness-run)
     return out
 
 
@@ -373,8 +376,11 @@ def main():
     impl_recs = {}
     ip = os.path.join(outdir, "impl.jsonl")
     if os.path.exists(ip):
-        for l in open(ip):
-            r = json.loads(l)
+        for l in open(ip, errors="replace"):
+            try:
+                r = json.loads(l)
+            except ValueError:
+                continue
             impl_recs[r["id"]] = r
     # a disagreement whose model reason code belongs to a recorded finding (e.g. the picker
     # relation rejecting the pick of finding F11) is that finding, not a broken correspondence
